@@ -1722,6 +1722,9 @@ package jsonpath
 //@ spec stk(p *pegJSONPathParser, d int) any = elemAt(p.jsonPathParser.params, off(p.jsonPathParser.params) + len(p.jsonPathParser.params) - 1 - d)
 //@ spec nodeWF(v any) bool = nodeOK(v) && 0 <= chainLen(v) && chainWalk(v) && PN(v)
 //@ spec lastNodeOK(p *pegJSONPathParser) bool = len(p.jsonPathParser.params) >= 1 && nodeWF(stk(p, 0)) && (isType(stk(p, 0), *syntaxChildMultiIdentifier) && asType(stk(p, 0), *syntaxChildMultiIdentifier).isAllWildcard ==> asType(stk(p, 0), *syntaxChildMultiIdentifier).unionQualifier.syntaxBasicNode != nil)
+// C17 (documented restriction): a comparison that survives action 26 does not have two current-node operands - directly or
+// under the negation that `!=` is built with
+//@ spec twoCur(q any) bool = isType(q, *syntaxBasicCompareQuery) && isType(asType(q, *syntaxBasicCompareQuery).leftParam.param, *syntaxQueryParamCurrentRoot) && isType(asType(q, *syntaxBasicCompareQuery).rightParam.param, *syntaxQueryParamCurrentRoot)
 //@ spec cmpqOK(q any) bool = isType(q, *syntaxBasicCompareQuery) ==> asType(q, *syntaxBasicCompareQuery) != nil && asType(q, *syntaxBasicCompareQuery).leftParam != nil && asType(q, *syntaxBasicCompareQuery).rightParam != nil
 //@ interface syntaxQueryJSONPathParameter.isValueGroupParameter
 //@   requires this != nil
@@ -1751,6 +1754,7 @@ package jsonpath
 //@   case ruleAction5 ensures named: len(p.jsonPathParser.params) == old(len(p.jsonPathParser.params)) && (has(p.jsonPathParser.filterFunctions, asType(old(stk(p, 0)), string)) ==> isType(stk(p, 0), *syntaxFilterFunction) && asType(stk(p, 0), *syntaxFilterFunction).function == p.jsonPathParser.filterFunctions[asType(old(stk(p, 0)), string)])
 // C18: what a number or a string literal denotes is a function of its captured text alone (an index: atoiVal of the digits
 // with their sign; a number literal: numToF; a string literal of either quote style: dotUnesc)
+//@   case ruleAction26 ensures twocur: len(p.jsonPathParser.params) == old(len(p.jsonPathParser.params)) && stk(p, 0) == old(stk(p, 0)) && !twoCur(stk(p, 0)) && (isType(stk(p, 0), *syntaxLogicalNot) ==> !twoCur(asType(stk(p, 0), *syntaxLogicalNot).query))
 //@   case ruleAction17 ensures index: isType(stk(p, 0), *syntaxIndexSubscript) && asType(stk(p, 0), *syntaxIndexSubscript).number == atoiVal(text) && !asType(stk(p, 0), *syntaxIndexSubscript).isOmitted
 //@   case ruleAction21 ensures index: isType(stk(p, 0), *syntaxIndexSubscript) && (len(text) > 0 ==> asType(stk(p, 0), *syntaxIndexSubscript).number == atoiVal(text) && !asType(stk(p, 0), *syntaxIndexSubscript).isOmitted) && (len(text) == 0 ==> asType(stk(p, 0), *syntaxIndexSubscript).isOmitted)
 //@   case ruleAction40 ensures number: isType(stk(p, 0), float64) && asType(stk(p, 0), float64) == numToF(text)
